@@ -74,6 +74,7 @@ type Pipe struct {
 	Cache    *conv_helper.CacheMock
 	Instance haproxy.Instance
 	Options  *convtypes.ConverterOptions
+	global   map[string]string
 }
 
 // PipeOptions configures a Pipe.
@@ -138,6 +139,7 @@ func NewPipe(po PipeOptions) (*Pipe, error) {
 		global[k] = v
 	}
 	p.Cache.Changed.GlobalConfigMapDataNew = global
+	p.global = global
 	p.AddService("system/default", "8080", "172.17.0.99", nil)
 	return p, nil
 }
@@ -225,6 +227,11 @@ func buildIngress(namespace, name string, ann map[string]string, rules []Rule, p
 
 // Sync runs the real converters (full sync on the first call).
 func (p *Pipe) Sync() {
+	// the mock cache forgets the current global ConfigMap after its second swap (it only
+	// copies `New` into `Cur`); the real cache keeps it: restore it for the later syncs
+	if ch := p.Cache.Changed; ch.GlobalConfigMapDataNew == nil && ch.GlobalConfigMapDataCur == nil {
+		ch.GlobalConfigMapDataCur = p.global
+	}
 	timer := utils.NewTimer(nil)
 	converters.NewConverter(timer, p.Instance.Config(), nil, p.Options).Sync()
 }
